@@ -825,6 +825,54 @@ pub fn run_c04p(ctx: &mut Ctx) {
     }
 }
 
+/// c10s: `k` uploads are stalled (their clients stopped sending in mid-body and hold their connections); one more upload
+/// starts and its client goes away: its file must go although the others are still stalled; when they leave, theirs go too.
+pub fn run_c10s(ctx: &mut Ctx) {
+    for (j, k) in [32usize, 40].iter().enumerate() {
+        if !ctx.mine(j as u64) { continue; }
+        let kk = *k;
+        let obs = guard(move || {
+            let srv = server(100, 1);
+            {
+                let mut g = shared().lock().unwrap();
+                g.behaviours.clear();
+                g.log.clear();
+                for i in 0..kk { g.behaviours.insert(format!("/st{i}"), Beh::GetBody(1_000_000)); }
+                g.behaviours.insert("/victim".to_string(), Beh::GetBody(1_000_000));
+            }
+            let before = count_files(&srv.cache);
+            let wait_files = |want: usize, ms: u64| -> usize {
+                let t0 = std::time::Instant::now();
+                loop {
+                    let n = count_files(&srv.cache).saturating_sub(before);
+                    if n == want || t0.elapsed() > Duration::from_millis(ms) { return n; }
+                    std::thread::sleep(Duration::from_millis(5));
+                }
+            };
+            let mut stallers = Vec::new();
+            for i in 0..kk {
+                let mut c = TcpStream::connect(srv.addr).unwrap();
+                let _ = c.write_all(format!("POST /st{i} HTTP/1.1\r\ncontent-length: 500000\r\n\r\n").as_bytes());
+                let _ = c.write_all(&vec![b's'; 70_000]);
+                stallers.push(c);
+            }
+            let stalled = wait_files(kk, 4000);
+            let mut v = TcpStream::connect(srv.addr).unwrap();
+            let _ = v.write_all(b"POST /victim HTTP/1.1\r\ncontent-length: 500000\r\n\r\n");
+            let _ = v.write_all(&vec![b'v'; 70_000]);
+            std::thread::sleep(Duration::from_millis(150));
+            drop(v);
+            // the victim's file is gone while the others are still there
+            std::thread::sleep(Duration::from_millis(100));
+            let with_victim_gone = wait_files(kk, 1500);
+            drop(stallers);
+            let after = wait_files(0, 3000);
+            format!("stalled={stalled} after_victim_left={with_victim_gone} after={after}")
+        });
+        ctx.emit("c10s", &[&kk.to_string()], &obs);
+    }
+}
+
 /// c01l: requests that cannot be read (and ordinary ones) while the application's logger has stopped: the connection task
 /// must still answer with the error's response — never die silently.
 pub fn run_c01l(ctx: &mut Ctx) {
@@ -948,6 +996,13 @@ pub fn run_c10(ctx: &mut Ctx) {
             if beh.starts_with('S') && sched == "linger" { continue; }
             case(ctx, "c10", "100", "1", sched, &format!("POST:/up{idx}:k:{}:{beh}{follow}", enc(&vec![b'q'; 400])));
         }
+    }
+    // the disk fails while an upload is saved and the client goes away before it has sent its declared length: answered (500),
+    // nothing left behind, no waiting for bytes that will not come
+    // (enough bytes arrive for the write failure to surface inside the copy loop; with fewer, "truncated" is an equally valid verdict)
+    for (declared, sent) in [(400_000usize, 200_000usize), (1_000_000, 300_000)] {
+        idx += 1;
+        if ctx.mine(idx) { case(ctx, "c10", "100", "3", "single", &format!("POST:/r0:d{declared}:{}:g1000000", enc(&vec![b'd'; sent]))); }
     }
     // a handler that takes 11 s over a received upload: the response is the handler's own, and the file is gone once it is sent
     idx += 1;
